@@ -959,7 +959,9 @@ func (e *Exec) execInstr(fr *frame, st *State, instr ssa.Instruction) {
 		et := x.Type().Underlying().(*types.Slice).Elem()
 		ln := toIndex(e.val(fr, st, x.Len), x.Len.Type())
 		cp := toIndex(e.val(fr, st, x.Cap), x.Cap.Type())
-		e.safety(st, "makeslice", smt.And(smt.BVUle(ln, cp), smt.BVUle(cp, cap48)), x.Pos())
+		// (sizes that only fail by exhausting memory are not modelled: the bound just keeps the
+		// arithmetic on lengths away from 64-bit wrap-around)
+		e.safety(st, "makeslice", smt.And(smt.BVUle(ln, cp), smt.BVUle(cp, smt.Const(64, 1<<56))), x.Pos())
 		if e.allocBound != nil && e.spec == 0 && !cp.IsConst() {
 			sz := uint64(stdSizes.Sizeof(et))
 			if sz == 0 {
@@ -1056,6 +1058,11 @@ func (e *Exec) unop(fr *frame, st *State, x *ssa.UnOp) *smt.Term {
 				return v
 			}
 			return e.W.Zero(x.Type())
+		}
+		if g, ok := x.X.(*ssa.Global); ok {
+			if cv := e.W.ConstGlobal(g); cv != nil {
+				return e.val(fr, st, cv)
+			}
 		}
 		addr := e.val(fr, st, x.X)
 		e.safety(st, "nil", smt.Neq(addr, NilAddr), x.Pos())
